@@ -14,6 +14,7 @@ theorem display_eq (fmt : F → String) (s : ChandelierExit F) :
 
 theorem default_eq : (default_ : Option (ChandelierExit F)) = some (fresh 22 (Scalar.lit 3 0)) := by
   unfold default_
+  try simp only [gen_helper]
   rw [new_eq]
   simp [unwrap, isizeMax]
 
